@@ -538,10 +538,15 @@ def run_plan(plan_data, root):
     plan = Plan(plan_data)
     sched = Sched(plan, root)
     install(sched)
-    for rel, content in plan_data["files"].items():
+    entries = list(plan_data["files"].items())
+    # directories first, links last (a link may stand for a directory created before it)
+    order = lambda kv: 0 if isinstance(kv[1], dict) and "dir" in kv[1] else 2 if isinstance(kv[1], dict) else 1
+    for rel, content in sorted(entries, key=order):
         path = os.path.join(root, rel)
         os.makedirs(os.path.dirname(path), exist_ok=True)
-        if isinstance(content, dict) and "link" in content:
+        if isinstance(content, dict) and "dir" in content:
+            os.makedirs(path, exist_ok=True)
+        elif isinstance(content, dict) and "link" in content:
             os.symlink(os.path.join(root, content["link"]), path)
         else:
             with open(path, "wb") as handle:
